@@ -74,21 +74,44 @@ End NodeInd.
 Lemma spec_files_app a b : spec_files (a ++ b) = spec_files a ++ spec_files b.
 Proof. unfold spec_files. apply flat_map_app. Qed.
 
-Lemma spec_walk_node n : forall dirs, spec_node dirs n = spec_files (walk_node dirs n).
-Proof. induction n as [name c|name ch IH|name t] using node_ind'; intros dirs.
-  - cbn [walk_node spec_node]. unfold spec_files. cbn [flat_map fst snd]. rewrite app_nil_r.
-    destruct c; try reflexivity.
-    unfold spec_accept. rewrite last_last, removelast_last. reflexivity.
-  - cbn [walk_node spec_node]. induction IH as [|x r Hx Hr IHr]; [reflexivity|].
-    cbn [flat_map]. rewrite spec_files_app, Hx, IHr. reflexivity.
-  - cbn [walk_node spec_node]. destruct t as [c| |]; try reflexivity.
-    unfold spec_files. cbn [flat_map fst snd]. rewrite app_nil_r.
-    destruct c; try reflexivity.
-    unfold spec_accept. rewrite last_last, removelast_last. reflexivity. Qed.
+(* the prologue test of syn::parse_file is the one of the specification, for texts that start
+   with at most one byte order mark *)
+Lemma trivia_same l : forallb pro_trivia l = forallb pro_is_trivia l.
+Proof. induction l as [|x r IH]; [reflexivity|]. cbn [forallb]. rewrite IH. destruct x; reflexivity. Qed.
 
-Lemma spec_walk l : annotated_spec l = spec_files (walk l).
-Proof. unfold annotated_spec, spec_nodes, walk, walk_nodes. induction l as [|x r IH]; [reflexivity|].
-  cbn [flat_map]. rewrite spec_files_app, spec_walk_node, IH. reflexivity. Qed.
+Lemma accepts_same p items : content_ok (Source p items) = true -> parse_file_accepts p = rust_prologue_ok p.
+Proof. unfold parse_file_accepts, rust_prologue_ok, content_ok.
+  destruct p as [|x r]; [reflexivity|]. destruct x; cbn [strip_bom]; try (intros _; apply trivia_same).
+  destruct r as [|y r2]; [reflexivity|]. destruct y; cbn [strip_bom]; try discriminate; intros _; apply trivia_same. Qed.
+
+Lemma entry_resolve dirs name c : content_ok c = true ->
+  spec_entry dirs name c = spec_files [(dirs ++ [name], resolve c)].
+Proof. intros Hc. unfold spec_entry, spec_files. cbn [flat_map fst snd]. rewrite app_nil_r.
+  unfold spec_accept. rewrite last_last, removelast_last.
+  destruct c as [items| | |p items]; cbn [spec_content resolve]; try reflexivity.
+  rewrite (accepts_same p items Hc). destruct (rust_prologue_ok p); reflexivity. Qed.
+
+Lemma spec_walk_node n : forall dirs, node_ok n = true -> spec_node dirs n = spec_files (walk_node dirs n).
+Proof. induction n as [name c|name ch IH|name t] using node_ind'; intros dirs Hok.
+  - cbn [walk_node spec_node]. cbn [node_ok] in Hok. apply andb_true_iff in Hok as [_ Hc].
+    apply entry_resolve. exact Hc.
+  - cbn [node_ok] in Hok. apply andb_true_iff in Hok as [Hok _]. apply andb_true_iff in Hok as [_ Hch].
+    rewrite forallb_forall in Hch.
+    cbn [walk_node spec_node]. induction IH as [|x r Hx Hr IHr]; [reflexivity|].
+    cbn [flat_map]. rewrite spec_files_app, Hx, IHr.
+    + reflexivity.
+    + intros y Hy. apply Hch. right. exact Hy.
+    + apply Hch. left. reflexivity.
+  - cbn [walk_node spec_node]. destruct t as [c| |]; try reflexivity.
+    cbn [node_ok] in Hok. apply andb_true_iff in Hok as [_ Hc]. apply entry_resolve. exact Hc. Qed.
+
+Lemma spec_walk l : layout_ok l = true -> annotated_spec l = spec_files (walk l).
+Proof. unfold layout_ok, annotated_spec, spec_nodes, walk, walk_nodes. intros H. apply andb_true_iff in H as [H _].
+  rewrite forallb_forall in H. induction l as [|x r IH]; [reflexivity|].
+  cbn [flat_map]. rewrite spec_files_app, spec_walk_node, IH.
+  - reflexivity.
+  - intros y Hy. apply H. right. exact Hy.
+  - apply H. left. reflexivity. Qed.
 
 (* ------------------------------------------------------------------ attribute test *)
 Lemma command_attr_same f : is_tauri_command f = annotated f.
@@ -107,7 +130,7 @@ Proof. induction files as [|[p c] r IH]; [reflexivity|].
   cbn [load]. unfold spec_files. cbn [flat_map fst snd]. fold (spec_files r).
   rewrite <- (accepted_spec_accept root p).
   destruct (accepted root p) eqn:Ea.
-  - destruct c as [items| |]; [|exact IH|exact IH].
+  - destruct c as [items| | |pp items]; [|exact IH|exact IH|exact IH].
     unfold analyze_files. cbn [flat_map fst snd]. fold (analyze_files (load root r)).
     rewrite map_app, IH. f_equal.
     rewrite map_map. unfold cmd_pair. cbn [c_file c_fn]. rewrite file_cmds_same. reflexivity.
@@ -132,26 +155,19 @@ Lemma emit_pairs cs : map wobs (emit cs) = map spec_obs (map cmd_pair cs).
 Proof. unfold emit. rewrite !map_map. apply map_ext. intros c. unfold wobs, spec_obs, cmd_pair. cbn [w_invoke w_ret fst snd].
   rewrite unraw_rust_name. reflexivity. Qed.
 
-(* holds for every tree and every root; the layout_ok premise of the published theorem only
-   delimits the trees that stand for a real directory *)
-Theorem bijection_any root l files' :
-  Permutation files' (cache root l) ->
-  Permutation (map wobs (emit (analyze_files files'))) (map spec_obs (annotated_spec l)).
-Proof. intros Hperm. unfold cache in Hperm.
-  rewrite spec_walk, <- (load_spec root (walk l)), <- emit_pairs, !emit_flat.
-  apply Permutation_flat_map. exact Hperm. Qed.
-
 Theorem bijection root l :
   layout_ok l = true ->
   forall files', Permutation files' (cache root l) ->
     Permutation (map wobs (emit (analyze_files files'))) (map spec_obs (annotated_spec l)).
-Proof. intros _ files'. apply bijection_any. Qed.
+Proof. intros Hok files' Hperm. unfold cache in Hperm.
+  rewrite (spec_walk l Hok), <- (load_spec root (walk l)), <- emit_pairs, !emit_flat.
+  apply Permutation_flat_map. exact Hperm. Qed.
 
 (* the walk-order run, as the extracted entry point computes it *)
 Corollary bijection_walk_order root l :
   layout_ok l = true ->
   map wobs (emit (analyze root l)) = map spec_obs (annotated_spec l).
-Proof. intros _. unfold analyze, cache. rewrite spec_walk, <- (load_spec root (walk l)). apply emit_pairs. Qed.
+Proof. intros Hok. unfold analyze, cache. rewrite (spec_walk l Hok), <- (load_spec root (walk l)). apply emit_pairs. Qed.
 
 (* no function without the attribute, no nested function, no function of a skipped file
    has a wrapper: membership reading of the specification *)
@@ -159,7 +175,7 @@ Lemma in_spec_files files p f :
   In (p, f) (spec_files files) <->
   exists items, In (p, Parsed items) files /\ spec_accept p = true /\ In (RFn f) items /\ annotated f = true.
 Proof. unfold spec_files. rewrite in_flat_map. split.
-  - intros ([p' c] & Hin & H). cbn [fst snd] in H. destruct c as [items| |]; try destruct H.
+  - intros ([p' c] & Hin & H). cbn [fst snd] in H. destruct c as [items| | |pp items']; try destruct H.
     destruct (spec_accept p') eqn:Ea; [|destruct H]. apply in_map_iff in H as (f' & [= <- <-] & Hf).
     exists items. split; [exact Hin|]. split; [exact Ea|].
     unfold top_level_annotated in Hf. apply in_flat_map in Hf as (it & Hit & Hf).
@@ -170,14 +186,15 @@ Proof. unfold spec_files. rewrite in_flat_map. split.
     exists (RFn f). split; [exact Hf|]. rewrite Hann. left. reflexivity. Qed.
 
 Lemma in_annotated_spec l p f :
+  layout_ok l = true ->
   In (p, f) (annotated_spec l) <->
   exists items, In (p, Parsed items) (walk l) /\ spec_accept p = true /\ In (RFn f) items /\ annotated f = true.
-Proof. rewrite spec_walk. apply in_spec_files. Qed.
+Proof. intros Hok. rewrite (spec_walk l Hok). apply in_spec_files. Qed.
 
 (* ------------------------------------------------------------------ unparsable and unreadable files *)
 Lemma load_app root a b : load root (a ++ b) = load root a ++ load root b.
 Proof. induction a as [|[p c] r IH]; cbn [app load]; [reflexivity|].
-  destruct (accepted root p); [|exact IH]. destruct c; [|exact IH|exact IH].
+  destruct (accepted root p); [|exact IH]. destruct c; [|exact IH|exact IH|exact IH].
   rewrite IH. reflexivity. Qed.
 
 Lemma analyze_files_app a b : analyze_files (a ++ b) = analyze_files a ++ analyze_files b.
@@ -198,7 +215,7 @@ Proof. intros Hc. unfold analyze_list, own_cmds. rewrite !load_app. cbn [load].
   destruct (accepted root p).
   - split.
     + rewrite !analyze_files_app. unfold analyze_files at 2. cbn [flat_map fst snd]. reflexivity.
-    + destruct c; [discriminate| |]; apply analyze_files_app.
+    + destruct c; [discriminate| | |]; apply analyze_files_app.
   - split; apply analyze_files_app. Qed.
 
 (* on layouts: turning one parsed file into an unparsable or unreadable one *)
@@ -284,6 +301,44 @@ Proof. induction ls as [|l r IH]; intros st Hok; [reflexivity|].
   inversion Hok as [|? ? Hl Hr]; subst. cbn [build_history map]. f_equal.
   - rewrite build_run_obs. apply bijection_walk_order. exact Hl.
   - apply IH. exact Hr. Qed.
+
+(* ------------------------------------------------------------------ histories over both routes *)
+Lemma run_step_obs root s st : stale_step root s st = false ->
+  map wobs (commands_ts (run_step root s st)) = map wobs (emit (analyze root (s_tree s))).
+Proof. unfold run_step, stale_step. destruct (analyze root (s_tree s)) as [|c cs] eqn:E.
+  - destruct (s_route s); [reflexivity|]. destruct st as [[|x p]|]; [reflexivity|discriminate|reflexivity].
+  - intros _. destruct (s_force s); [reflexivity|].
+    destruct st as [p|]; [|reflexivity]. destruct (cache_hit root p (c :: cs)) eqn:Eh; [|reflexivity].
+    cbn [commands_ts]. apply (cache_hit_same root). exact Eh. Qed.
+
+Theorem history_spec root steps : forall st,
+  Forall (fun s => layout_ok (s_tree s) = true) steps ->
+  kf_cli_stale root st steps = false ->
+  map (map wobs) (history root st steps) = map (fun s => map spec_obs (annotated_spec (s_tree s))) steps.
+Proof. induction steps as [|s r IH]; intros st Hok Hkf; [reflexivity|].
+  inversion Hok as [|? ? Hl Hr]; subst. cbn [kf_cli_stale] in Hkf. apply orb_false_iff in Hkf as [Hk1 Hk2].
+  cbn [history map]. f_equal.
+  - rewrite (run_step_obs root s st Hk1). apply bijection_walk_order. exact Hl.
+  - apply IH; assumption. Qed.
+
+(* the build route alone is never in the class *)
+Lemma build_never_stale root steps : forall st,
+  forallb (fun s => match s_route s with RBuild => true | RCli => false end) steps = true ->
+  kf_cli_stale root st steps = false.
+Proof. induction steps as [|s r IH]; intros st H; [reflexivity|].
+  cbn [forallb] in H. apply andb_true_iff in H as [H1 H2]. cbn [kf_cli_stale].
+  rewrite (IH _ H2), orb_false_r. unfold stale_step. destruct (s_route s); [reflexivity|discriminate]. Qed.
+
+(* C03-3: plain CLI run on a tree with a command, then on the tree without it *)
+Definition w_stale_steps : list step :=
+  [ {| s_route := RCli; s_force := false; s_tree := w_layout1 |};
+    {| s_route := RCli; s_force := false; s_tree := [NFile (L "main.rs") (Parsed [ROther])] |} ].
+Lemma cli_stale_refuted :
+  Forall (fun s => layout_ok (s_tree s) = true) w_stale_steps /\
+  kf_cli_stale (L "src") None w_stale_steps = true /\
+  map (map wobs) (history (L "src") None w_stale_steps) = [[(L "hello", L "Promise<string>")]; [(L "hello", L "Promise<string>")]] /\
+  map (fun s => map spec_obs (annotated_spec (s_tree s))) w_stale_steps = [[(L "hello", L "Promise<string>")]; []].
+Proof. split; [repeat constructor|]. vm_compute. repeat split; reflexivity. Qed.
 
 (* ------------------------------------------------------------------ the oracle *)
 Lemma pair_eqb_eq a b : pair_eqb a b = true <-> a = b.
